@@ -36,7 +36,7 @@ def late_answer_scenario(rng, reqs, kt):
     return {'retries': rng.choice([0, 1]), 'delay': delay, 'script': script, 'reqs': [rq], 'plan': [('good', 1, False)]}
 
 
-def run_suite(res, prop, tier, seed, n_quick, n_thorough, n_req=1, force=None, oracle=None, comp='request', pair_every=0, late_every=0):
+def run_suite(res, prop, tier, seed, n_quick, n_thorough, n_req=1, force=None, oracle=None, comp='request', pair_every=0, late_every=0, tty_every=4):
     mt = R.message_table()
     kt = R.key_tables()
     sk = ','.join(str(k) for k in kt['signed']) or '-'
@@ -56,13 +56,17 @@ def run_suite(res, prop, tier, seed, n_quick, n_thorough, n_req=1, force=None, o
             sc = late_answer_scenario(rng, reqs, kt)
         else:
             sc = S.scenario(rng, reqs, kt, n_req=n_req if isinstance(n_req, int) else rng.choice(n_req), force=force)
+        if tty_every and k % tty_every == 1:
+            sc = S.on_tty(rng, sc)
+            res.notes['on_serial_backend'] = res.notes.get('on_serial_backend', 0) + (sc.get('backend') == 'tty')
         out = S.run_scenario(sc)
         desc = S.describe(sc)
         cmd = S.model_cmd(sc, sk)
         parts = out.split(' ;; ')
         results = [S.parse_result(x) for x in parts]
         if oracle is not None:
-            for rq, r in zip(sc['reqs'], results):
+            for idx_, (rq, r) in enumerate(zip(sc['reqs'], results)):
+                sc['_idx'], sc['_results'] = idx_, results
                 why = oracle(sc, rq, r)
                 if why:
                     res.violation(f'{prop} oracle: {why}', {'property': prop, 'input': desc, 'request': f'{rq.op}:{rq.label}',
